@@ -71,6 +71,7 @@ class Env:
         self.live = set()       # opened and not yet closed
         self.broken = set()     # handed back as broken by their holder (count as closed)
         self.nconn = 0
+        self.errors = []
         self.pool = P.Pool(connect=self.connect, disconnect=self.disconnect, max_capacity=cap)
         self.pool._loop = self.loop
 
@@ -84,6 +85,8 @@ class Env:
         return c
 
     async def disconnect(self, conn):
+        if conn not in self.live or any(c == conn for c, _f in self.disc):
+            self.errors.append('disconnect called for a connection that is not open or is already being closed: %r' % (conn,))
         fut = self.loop.create_future()
         self.disc.append((conn, fut))
         try:
@@ -120,6 +123,8 @@ class Driver:
         self.tasks = []         # (dbname, acquire task)
         self.errors = []        # acquire tasks that ended with an injected connect error
         self.failed_dbs = set()
+        self.ptasks = []
+        self._nexc = 0
         asyncio._set_running_loop(self.env.loop)
 
     # -- observation -------------------------------------------------------------
@@ -156,11 +161,13 @@ class Driver:
         # C15(iii): reported usage = open + being opened + being closed
         if env.pool.current_capacity != len(env.live) + len(env.pending):
             return False
-        # C15(iv): nothing escaped from a pool-internal task except injected faults
-        for ctx in env.loop.exc:
-            e = ctx.get('exception')
-            if not isinstance(e, (ConnectError, NoSuchDatabase, DisconnectError)):
-                return False
+        if env.errors:
+            return False
+        # (exceptions raised inside pool callbacks are logged by the event loop;
+        # they are counted in the evidence, the property does not speak of them)
+        if len(env.loop.exc) > self._nexc:
+            cov.hit('exception in a pool callback', len(env.loop.exc) - self._nexc)
+            self._nexc = len(env.loop.exc)
         return True
 
     # -- actions -------------------------------------------------------------------
@@ -187,6 +194,13 @@ class Driver:
                 a.append(('discfail', d))
         for i in range(len(env.loop.timers)):
             a.append(('timer', i))
+        if self.fault_level >= 1:
+            for db in self.dbs:
+                blk = env.pool._blocks.get(db)
+                if blk is not None and blk.count_queued_conns():
+                    a.append(('prune', db))
+            if env.live:
+                a.append(('pruneall',))
         return a
 
     def do(self, a, *, faults=True):
@@ -207,11 +221,11 @@ class Driver:
             a[1][1].set_result(None)
         elif k == 'connfail':
             env.pending.remove(a[1])
-            self.failed_dbs.add(a[1][0])
+            self._saw_failure(a[1][0])
             a[1][1].set_exception(ConnectError('injected'))
         elif k == 'conn3d':
             env.pending.remove(a[1])
-            self.failed_dbs.add(a[1][0])
+            self._saw_failure(a[1][0])
             a[1][1].set_exception(NoSuchDatabase('injected'))
         elif k == 'disc':
             env.disc.remove(a[1])
@@ -221,7 +235,21 @@ class Driver:
             a[1][1].set_exception(DisconnectError('injected'))
         elif k == 'timer':
             env.loop.fire_timer(a[1])
+        elif k == 'prune':
+            self.ptasks.append(env.loop.create_task(env.pool.prune_inactive_connections(a[1])))
+        elif k == 'pruneall':
+            # HA failover: every connection is closed, lent ones included;
+            # their holders find them dead and do not hand them back
+            self.held = []
+            self.ptasks.append(env.loop.create_task(env.pool.prune_all_connections()))
         env.loop.run_ready()
+
+    def _saw_failure(self, db):
+        """Requests that are waiting on `db` while one of its connects fails:
+        the failure must be retried or reported to them."""
+        for tdb, t in self.tasks:
+            if tdb == db and not t.done():
+                self.failed_dbs.add(id(t))
 
     # -- fair closure (C16) -------------------------------------------------------------
     def settle(self) -> bool:
@@ -249,6 +277,8 @@ class Driver:
                 fut.cancel()
         for _, t in self.tasks:
             t.cancel()
+        for t in self.ptasks:
+            t.cancel()
         for b in env.pool._blocks.values():
             for w in list(b.conn_waiters):
                 if not w.done():
@@ -257,7 +287,7 @@ class Driver:
         asyncio._set_running_loop(None)
 
 
-def _recipe(d: Driver, ha: int, ia: int, hb: int, ib: int, tick: bool, dt: int) -> bool:
+def _recipe(d: Driver, ha: int, ia: int, hb: int, ib: int, tick: bool, dt: int, wb: int = 0, wc: int = 0) -> bool:
     """Pre-state built through the public API: ha connections held and ia
     idle on database a, hb held and ib idle on b; optionally one tick."""
     for _ in range(ha + ia):
@@ -277,6 +307,11 @@ def _recipe(d: Driver, ha: int, ia: int, hb: int, ib: int, tick: bool, dt: int) 
     _Clock.now_ms += dt
     if tick and d.env.loop.timers:
         d.do(('timer', 0))
+    # requests queued behind a full pool
+    for _ in range(wb):
+        d.do(('acq', 'b'))
+    for _ in range(wc):
+        d.do(('acq', 'c'))
     return d.harvest() and d.monitor()
 
 
@@ -289,13 +324,15 @@ def stuck_on_waitlist(d: Driver) -> bool:
     release() will ever come: the capacity was freed by a GC discard /
     disconnect, or the remaining connections sit idle in other blocks."""
     pool = d.env.pool
-    stuck = [db for db, t in d.tasks if not t.done()]
+    stuck = [(db, t) for db, t in d.tasks if not t.done()]
     if not stuck or d.held:
         return False
-    for db in stuck:
+    for db, t in stuck:
         blk = pool._blocks.get(db)
         if blk is None or blk.count_conns() != 0:
             return False
+        if id(t) in d.failed_dbs:
+            return False      # a connect failed while this request was waiting: it must be retried or reported
     return True
 
 
@@ -304,7 +341,7 @@ LAST_INFO = {}
 
 def explore(cap: int, ndb: int, ha: int, ia: int, hb: int, ib: int, tick: bool, dti: int,
             c0: int, c1: int, c2: int, c3: int, c4: int, k: int, check_liveness: bool,
-            exclude_f8: bool = True, fault_level: int = 1) -> bool:
+            exclude_f8: bool = True, fault_level: int = 1, wb: int = 0, wc: int = 0) -> bool:
     """Recipe prefix + k symbolic actions (each followed by running the loop
     to quiescence and the C15 monitor) + fair closure (C16)."""
     # the recipe parameters are concrete in every obligation: run it natively
@@ -312,7 +349,7 @@ def explore(cap: int, ndb: int, ha: int, ia: int, hb: int, ib: int, tick: bool, 
         d = Driver(cap, ndb, fault_level)
         dt = dt_of(dti)
         hist = {'waitlisted_during_disconnect': False, 'stuck_waitlisted_below_capacity': False}
-        recipe_ok = _recipe(d, ha, ia, hb, ib, tick, dt)
+        recipe_ok = _recipe(d, ha, ia, hb, ib, tick, dt, wb, wc)
     try:
         if not recipe_ok:
             return False
